@@ -134,7 +134,7 @@ pub fn run(tier: Tier, seed: u64) -> Report {
     let r = run_pbt(
         "deep",
         seed,
-        tier.pick(20_000, 1_000_000),
+        tier.pick(200_000, 6_000_000),
         || (1usize..=29, 0usize..6, 0u8..9, any::<u64>(), 0u8..32).boxed(),
         |(n, o, class, raw, k), st| {
             let s = gen::make_pos(*class, *raw, *k, *n as u32);
